@@ -4,7 +4,7 @@ import vplib
 
 PID = "C08"
 ENGINE = "conc"
-RULE = ("[bursts of 40-600 posts from 1-2 clients under PCT] 1-3 client threads issuing up to 4 post/abort calls each on one new-thread scheduler, tasks that themselves post or abort or "
+RULE = ("[bursts of 40-300 posts from one client under PCT] 1-3 client threads issuing up to 4 post/abort calls each on one new-thread scheduler, tasks that themselves post or abort or "
         "sleep, under random / PCT schedules and exhaustive DFS for the smallest instances, with spurious wake-ups switched on for part "
         "of the runs; every observed call/return + task start/end history must be a linearisation accepted by the extracted queue "
         "transition system (Wing-Gong search), tasks must run on one thread that is not a posting thread, never two at once; the worker "
@@ -67,12 +67,12 @@ def generate(rng, tier, seed):
         base = seed * 1000 + rng.randrange(1000)
         cases.append(mk(threads, init, fini, ["random", base, 60 if thorough else 25], spurious=rng.random() < 0.4))
         cases.append(mk(threads, init, fini, ["pct", 3, base, 30 if thorough else 10]))
-    # bursts: one or two clients post 40-300 plain tasks while the worker lags behind (PCT gives a client priority in part of the
+    # bursts: one client posts 40-300 plain tasks while the worker lags behind (PCT gives a client priority in part of the
     # schedules), then the queue is left to drain or aborted: whatever bound or batching the queue uses must not show
-    for nb in ([40, 130, 300, 600] if thorough else [40, 300]):
+    for nb in ([40, 130, 300] if thorough else [40, 300]):      # (the linearisation search of queue-accept grows steeply beyond this)
         for fini in ([[], [["sleep", 5], ["abort", 0]]] if thorough else [[]]):
             tid[0] = 0
-            nt = 1 if nb >= 300 else rng.choice([1, 2])
+            nt = 1      # (one client: with two, the linearisation search has to guess the order of every overlapping pair of posts)
             threads = [["c%d" % i] + [post(fresh()) for _ in range(nb // nt)] for i in range(nt)]
             base = seed * 1000 + rng.randrange(1000)
             cases.append(mk(threads, [], fini, ["pct", 3, base, 8 if thorough else 4]))
